@@ -149,10 +149,19 @@ Lemma indexed_map : forall (A B : Type) (f : A -> B) l i,
   indexed i (map f l) = map (fun px => (fst px, f (snd px))) (indexed i l).
 Proof. induction l as [|x r IH]; intros i; simpl; auto. now rewrite IH. Qed.
 
+(* the calls of the action's function that happen while the partitions are being processed *)
+Fixpoint mid_loop (a : action) (sa : Z) (st : option Z * Z) (os : list (Z * list Z)) : list event :=
+  match os with
+  | [] => []
+  | (p, o) :: rest =>
+      let ce := comb_step a sa p st o in
+      act_events a sa p o ++ (if deferred a then [] else fst ce) ++ mid_loop a sa (snd ce) rest
+  end.
+
 Lemma job_loop_perm : forall a sa stages parts i st,
   Permutation (job_loop a sa st (map (task_of stages) (indexed i parts)))
               (concat (map (fun px => part_events (fst px) stages (snd px)) (indexed i parts))
-               ++ action_loop a sa st (indexed i (map (sem_pipe stages) parts))).
+               ++ mid_loop a sa st (indexed i (map (sem_pipe stages) parts))).
 Proof.
   intros a sa stages. induction parts as [|xs rest IH]; intros i st; simpl.
   - constructor.
@@ -168,9 +177,33 @@ Proof.
     + apply IH.
 Qed.
 
+Lemma mid_loop_split : forall a sa os st,
+  Permutation (mid_loop a sa st os ++ (if deferred a then comb_loop a sa st os else []))
+              (action_loop a sa st os).
+Proof.
+  intros a sa. induction os as [|[p o] rest IH]; intros st; simpl.
+  - destruct (deferred a); constructor.
+  - specialize (IH (snd (comb_step a sa p st o))). destruct (deferred a); simpl.
+    + rewrite <- app_assoc. apply Permutation_app_head.
+      rewrite Permutation_app_swap_app. apply Permutation_app_head. exact IH.
+    + rewrite app_nil_r in *. apply Permutation_app_head. apply Permutation_app_head. exact IH.
+Qed.
+
+Lemma tasks_outs_indexed : forall stages parts i,
+  map (fun t : Z * ptrace => (fst t, all_outs (snd t))) (map (task_of stages) (indexed i parts)) =
+  indexed i (map (sem_pipe stages) parts).
+Proof.
+  intros stages. induction parts as [|xs rest IH]; intros i; simpl; auto.
+  rewrite IH, run_part_outs. reflexivity.
+Qed.
+
 Lemma job_log_perm : forall a stages parts,
   Permutation (job_log a stages parts) (pipeline_events stages parts ++ action_events a stages parts).
-Proof. intros. unfold job_log, tasks, pipeline_events, action_events. apply job_loop_perm. Qed.
+Proof.
+  intros. unfold job_log, tasks, pipeline_events, action_events.
+  fold (task_of stages). rewrite tasks_outs_indexed.
+  rewrite job_loop_perm, <- app_assoc. apply Permutation_app_head. apply mid_loop_split.
+Qed.
 
 (* ---- the expected events are pairwise distinct ----------------------------------------------------------------- *)
 Definition epid (e : event) : Z := match e with (_, p, _, _) => p end.
@@ -431,7 +464,7 @@ Qed.
 
 Lemma collect_log_drain : forall stages parts,
   job_log ACollect stages parts = concat (map ev_of (tasks stages parts)).
-Proof. intros. apply job_loop_collect. Qed.
+Proof. intros. unfold job_log. simpl. rewrite app_nil_r. apply job_loop_collect. Qed.
 
 Lemma take_log_prefix : forall n stages parts,
   exists suf, job_log ACollect stages parts = take_log n stages parts ++ suf.
